@@ -607,6 +607,31 @@ func (fr *frame) loopEnv(li *loopInfo, st *State, phis map[*ssa.Phi]Term) *Env {
 			}
 			return CVal{}, false
 		}
+		if name == "$outervis" {
+			// the visited set of the enclosing map-range loop (the current key is already in it)
+			var best *loopInfo
+			for _, other := range fr.loops {
+				if other == li || !other.blocks[li.header] || len(other.blocks) <= len(li.blocks) {
+					continue
+				}
+				if best == nil || len(other.blocks) < len(best.blocks) {
+					best = other
+				}
+			}
+			if best != nil {
+				for _, in := range best.header.Instrs {
+					if nx, ok := in.(*ssa.Next); ok {
+						if r, ok := nx.Iter.(*ssa.Range); ok {
+							if it, ok := fr.vals[r].(*MapIter); ok && !it.Str {
+								ks := fc.e.sortOf(it.MapT.Key())
+								return CVal{fc.heapGet(st, it.Vis, arr(ks, SBool)), nil}, true
+							}
+						}
+					}
+				}
+			}
+			return CVal{}, false
+		}
 		if name == "$vis" {
 			for _, in := range li.header.Instrs {
 				if nx, ok := in.(*ssa.Next); ok {
